@@ -1185,6 +1185,35 @@ def _don_fs_discretize_sorted():
     BranchNet._discretize_function_set = _discretize_function_set
 
 
+def _cond_preeval_any_static():
+    from torchphysics.problem.samplers.sampler_base import PointSampler, StaticSampler
+    PointSampler.is_static = property(lambda self: isinstance(self, StaticSampler))      # data pre-evaluated although the sampler resamples
+
+
+def _cond_move_left_for_both():
+    from torchphysics.problem.conditions.condition import PeriodicCondition
+
+    def _move_static_data(self, device):
+        if self.non_periodic_sampler.is_static:
+            for fn in self.left_data_functions:
+                self.left_data_functions[fn].fun = self.left_data_functions[fn].fun.to(device)
+                if fn in self.right_data_functions:
+                    self.right_data_functions[fn].fun = self.left_data_functions[fn].fun      # right data := left data
+    PeriodicCondition._move_static_data = _move_static_data
+
+
+def _cond_static_cache_dropped():
+    from torchphysics.problem.conditions.condition import Condition
+    old = Condition._setup_data_functions
+
+    def _setup_data_functions(self, data_functions, sampler):
+        out = old(self, data_functions, sampler)
+        if sampler.is_static:
+            sampler.created_points = None          # the user's sampler draws again at its next call
+        return out
+    Condition._setup_data_functions = _setup_data_functions
+
+
 def _trn_sched_every_step():
     import torch
     from torchphysics.solver import Solver
@@ -1274,6 +1303,8 @@ REGISTRY = {
     "condx_sqerr_axis1": _condx_sqerr_axis1, "condx_branch_skip": _condx_branch_skip, "condx_resample_always": _condx_resample_always,
     "condx_fs_reversed_params": _condx_fs_eval_first_point, "condx_integro_first_point": _condx_integro_own_points,
     "don_fs_collection_reversed": _don_fs_collection_reversed, "don_fs_sensors_flipped": _don_fs_discretize_sorted,
+    "cond_preeval_any_static": _cond_preeval_any_static, "cond_move_left_for_both": _cond_move_left_for_both,
+    "cond_static_cache_dropped": _cond_static_cache_dropped,
     "cond_inplace_dict": _cond_inplace_dict, "cond_sqerr_mean": _cond_sqerr_mean, "cond_data_rows_reversed": _cond_data_on_first_call_points,
     "cond_periodic_shared_sides": _cond_periodic_shared_sides, "cond_model_positional": _cond_model_positional,
     "fno_pad_front": _fno_pad_front, "fno_inplace_input": _fno_inplace, "fno_position_bias": _fno_position_bias,
@@ -1316,7 +1347,8 @@ BY_PROPERTY = {
     "C07": ["trn_no_weight", "trn_iteration_halved", "trn_gradreverse_off", "trn_param_unregistered", "trn_sched_every_step", "trn_val_updates_model"],
     "C04": ["cond_sqerr_mean", "cond_data_rows_reversed", "cond_periodic_shared_sides", "cond_model_positional",
             "condx_sqerr_axis1", "condx_fs_reversed_params", "condx_integro_first_point"],
-    "C14": ["cond_inplace_dict", "cond_periodic_shared_sides", "condx_branch_skip", "condx_resample_always"],
+    "C14": ["cond_inplace_dict", "cond_periodic_shared_sides", "condx_branch_skip", "condx_resample_always",
+            "cond_preeval_any_static", "cond_move_left_for_both", "cond_static_cache_dropped"],
     "C20": ["fno_pad_front", "fno_inplace_input", "fno_position_bias", "fno_norm_one_side"],
     "C09": ["don_contract_reversed", "don_grad_weight_first_copy", "don_branch_cache_by_shape", "don_fs_collection_reversed", "don_fs_sensors_flipped"],
     "C08": ["mdl_fcn_noreorder", "mdl_parallel_positional", "mdl_qres_batch_norm", "mdl_sequential_flip", "mdl_missing_var_zero"],
